@@ -304,6 +304,14 @@ theorem range (start endv : Int) (c : Ctx) :
     (rangeG start endv).delivered c = Spec.rangeScript start endv c ∧ (rangeG start endv).dropped c = [] :=
   rangeG_delivered start endv c
 
+/-- `RangeWithStep(start, end, step)` for all integral bounds and every positive integral step: every value
+    `start ± i·step` of `[start:end)` — `⌈|end-start| / step⌉` of them, the last one included when the span is not a
+    multiple of the step —, then completion; delivered as is, nothing refused -/
+theorem rangeWithStep (start endv : Int) (step : Nat) (hs : 0 < step) (c : Ctx) :
+    (rangeStepG start endv (step : Int)).delivered c = Spec.rangeStepScript start endv step c ∧
+    (rangeStepG start endv (step : Int)).dropped c = [] :=
+  rangeStepG_delivered start endv step hs c
+
 /-- a creation operator under any machine: the existing run theorem with a synchronous source
     playing the generated script -/
 theorem create_pipe {σ α β : Type} (g : Gen α) (m : Machine σ α β) (c : Ctx) (hs : m.subscribes = true) :
@@ -332,6 +340,7 @@ end Ro.C04d
 #print axioms Ro.C04d.cast
 #print axioms Ro.C04d.ctxWithValue
 #print axioms Ro.C04d.range
+#print axioms Ro.C04d.rangeWithStep
 #print axioms Ro.C04d.create_pipe
 #print axioms Ro.ctxWithValue_spec
 #print axioms Ro.contextMap_spec
@@ -350,6 +359,9 @@ end Ro.C04d
 #print axioms Ro.throwG_script
 #print axioms Ro.rangeLoop_values
 #print axioms Ro.rangeG_script
+#print axioms Ro.rangeStepLoop_values
+#print axioms Ro.rangeStepG_script
+#print axioms Ro.rangeStepValues_one
 #print axioms Ro.repeatG_script
 #print axioms Ro.startG_ok
 #print axioms Ro.startG_panic
